@@ -81,11 +81,20 @@ def run(chk: Check) -> None:
         maps: list[str] = []
         steps = rnd.randint(3, 14)
         lost_any = False
+        cleared = False
         top_unknown = False   # an announcement arrived while position 0 was unknown (recorded finding): the view is off by one since
         ok_hist = True
         for _ in range(steps):
             r = rnd.random()
             try:
+                if ctl and rnd.random() < 0.06:
+                    # the log is cleared at the controller (nothing is announced), and maybe gains fresh entries
+                    del ctl[:]
+                    for _ in range(rnd.choice((0, 1, 1, 2))):
+                        clock += rnd.randint(1, 5)
+                        ctl.insert(0, clock)
+                    cleared = True
+                    continue
                 if r < 0.35 or not ctl:
                     clock += rnd.randint(1, 5)
                     ctl.insert(0, clock)
